@@ -306,7 +306,56 @@ def cuboid_stream(ctx, n):
         compare_sets(ctx, f"C18:cuboid:line-after-area:{mode}", desc + " after .area", [x + [Fr(1)] for x in pts], call_impl(lambda: cube.intersect(L)))
 
 
+def collection_stream(ctx, n):
+    """collections of polygons of space intersected element-wise with collections of segments / with one line: exactly the
+    piercing points of the pairs (coplanar pairs and segments that stop short contribute nothing); pierce points level with a
+    vertex of the projected polygon included"""
+    import geometer as g
+    rng = ctx.rng
+    for k in range(n):
+        kind = rng.choice(["mixed-segments", "vertex-level-line"])
+        if kind == "mixed-segments":
+            w, h = rng.randint(2, 4), rng.randint(2, 4)
+            zs = rng.sample([0, 1, 2, 3, 5], 3)
+            rect = lambda z: np.array([[0.0, 0, z, 1], [w, 0, z, 1], [w, h, z, 1], [0, h, z, 1]])
+            P = g.PolygonCollection(np.array([rect(z) for z in zs]))
+            cx, cy = w / 2, h / 2
+            segs = [np.array([[-1.0, cy, zs[0], 1], [w + 1.0, cy, zs[0], 1]]),                    # in the plane of polygon 0
+                    np.array([[cx, cy, zs[1] - 2.0, 1], [cx, cy, zs[1] - 0.5, 1]]),               # stops short of polygon 1
+                    np.array([[cx, cy, zs[2] - 2.0, 1], [cx, cy, zs[2] + 3.0, 1]])]               # pierces polygon 2
+            order = [0, 1, 2]
+            rng.shuffle(order)
+            P = g.PolygonCollection(np.array([rect(zs[i]) for i in order]))
+            S = g.SegmentCollection(np.array([segs[i] for i in order]))
+            exp = [[Fr(cx), Fr(cy), Fr(zs[2]), Fr(1)]]
+            desc = f"polygon collection x segment collection rect {w}x{h} z={zs} order={order}"
+            ctx.case(desc)
+            ctx.count("collection:mixed-segments")
+            for name, f in (("P.intersect(S)", lambda: P.intersect(S)), ("S.intersect(P)", lambda: S.intersect(P))):
+                compare_sets(ctx, f"C18:collection:mixed-segments", desc + " " + name, exp, call_impl(f))
+        else:
+            # isosceles triangles pierced on their symmetry axis: the projected pierce point is level with the apex
+            b, hh = rng.randint(1, 3), rng.randint(2, 4)
+            zs = rng.sample([0, 1, 2, 4], 2)
+            tri = lambda z: np.array([[0.0, 0, z, 1], [2.0 * b, 0, z, 1], [float(b), hh, z, 1]])
+            P = g.PolygonCollection(np.array([tri(z) for z in zs]))
+            y = Fr(rng.choice([1, 2, hh * 2 - 1]), 2)
+            L = g.Line(g.Point(float(b), float(y), -5.0), g.Point(float(b), float(y), 7.0))
+            exp = [[Fr(b), y, Fr(z), Fr(1)] for z in zs]
+            desc = f"triangle collection base {2 * b} height {hh} at z={zs} pierced by the vertical line through ({b}, {y})"
+            ctx.case(desc)
+            ctx.count("collection:vertex-level-line")
+            compare_sets(ctx, "C18:collection:vertex-level-line", desc, exp, call_impl(lambda: P.intersect(L)))
+            singles = []
+            for z in zs:
+                r = call_impl(lambda: g.Polygon(tri(z)).intersect(L))
+                singles += [[Fr(b), y, Fr(z), Fr(1)]] if r[0] == "ok" and len(r[1]) == 1 else []
+            if len(singles) != len(exp):
+                ctx.disagree("C18:collection:vertex-level-line:single", desc, "one point per triangle", f"{len(singles)} points from the single polygons", replay=[desc])
+
+
 def correspondence(ctx):
+    collection_stream(ctx, ctx.budget(30, 300))
     segseg_stream(ctx, ctx.budget(250, 0))
     seg3d_stream(ctx, ctx.budget(160, 3000))
     polygon_stream(ctx, ctx.budget(60, 1200))
